@@ -31,6 +31,9 @@ Report(i) ==
         refs == \A d \in 1..Len(e) : RefsBack(e, d)
         ok == refs /\ LegalEnv(e)
     IN [gid |-> i, legal |-> ok, lay |-> IF ok THEN LayAll(e) ELSE <<>>,
+        raw |-> IF ok THEN [d \in 1..Len(e) |-> IF e[d].k = "struct"
+                                                 THEN RawTable(Parts(SubSeq(LayAll(e), 1, d - 1), e[d].ms)) ELSE <<>>]
+                ELSE <<>>,
         rules |-> IF ok THEN <<>> ELSE IF refs THEN SetToSeq(Violations(e)) ELSE <<"back-references-only">>]
 
 ASSUME \A i \in 1..Len(Given) : PrintT("LAY " \o ToJson(Report(i)))
